@@ -52,6 +52,7 @@ _clock = [0]
 
 
 EXISTING: set = set()  # names of constants that denote objects handed in by a callee (opaque results): they existed when created
+NONNEG: set = set()  # names of integer binders introduced under a guard 0 <= j (comprehension / quantifier indices)
 
 
 def tick(name: str) -> int:
